@@ -70,7 +70,7 @@ def _plan_cases(ctx, broken):
     sel = plans.seeded_slice(ctx, progs, n)
     # always include the shapes known to be delicate
     must = [p for p in progs if p.name in (
-        "shift1/diff1/self_add", "two_shifts", "two_diffs_frame", "shuffle_b/tail2/id", "shuffle_b/tail2/count", "cumsum/id", "merge_inner", "concat", "shift1/self_add",
+        "shift1/diff1/self_add", "two_shifts", "two_diffs_frame", "nested_fused", "nested_fused3", "nested_fused_deps", "nested_fused_deps3", "two_reparts_up", "two_reparts_mixed", "shuffle_b/tail2/id", "shuffle_b/tail2/count", "cumsum/id", "merge_inner", "concat", "shift1/self_add",
         "head3/id", "repart5/shuffle_b/id", "shuffle_b_disk/id", "diff1/shift1/id")]
     return must + sel
 
@@ -80,7 +80,7 @@ def fam_real_graphs(ctx):
     f = Family("proven_checker_on_real_graphs[Expr.__dask_graph__]")
     reqs, inputs = [], []
     for p in _plan_cases(ctx, []):
-        for layout in ([0] if ctx.quick else [0, 1, 3]):
+        for layout in ([0, 3] if ctx.quick else [0, 1, 3]):
             try:
                 q = plans.build(p, layout)
             except Exception:  # noqa: BLE001
@@ -109,8 +109,9 @@ def support(ctx, broken):
     """Failing-input search = the same structural obligations, reported per concrete program."""
     sup = Support()
     for p in _plan_cases(ctx, broken):
+      for layout in (0, 3):
         try:
-            q = plans.build(p, 0)
+            q = plans.build(p, layout)
             if not hasattr(q, "expr"):
                 continue
             stages = plans.stage_exprs(q.expr)
@@ -122,7 +123,7 @@ def support(ctx, broken):
             problems, _ = check_plan(e)
             if problems:
                 sup.failures.append(Failure(sig={"kind": "graph", "program": p.name, "stage": st},
-                                            case={"program": p.name, "layout": 0, "stage": st},
+                                            case={"program": p.name, "layout": layout, "stage": st},
                                             detail="; ".join(problems)))
         if len(sup.failures) >= 5:
             break
